@@ -134,7 +134,16 @@ func __exists(lo, hi int, f func(int) bool) bool {
 // allocation freshness, aliasing predicates), which have no run-time meaning.
 var racGhostRe = regexp.MustCompile(`\b(sentcount|lastsent|ghost|fresh|samefn|sameslice|disjoint|entry|rangeindex|visited)\(|\bin allocated\b`)
 
-func racExecutable(text string) bool { return !racGhostRe.MatchString(text) }
+func racExecutable(text string) bool {
+	if racGhostRe.MatchString(text) {
+		return false
+	}
+	// old(...) under a quantifier may mention the bound variable: not hoistable
+	if (strings.Contains(text, "forall ") || strings.Contains(text, "exists ")) && strings.Contains(text, "old(") {
+		return false
+	}
+	return true
+}
 
 // hoistOld replaces old(E) sub-expressions by fresh variables and returns
 // the rewritten text and the hoisted (name, expr) pairs.
@@ -269,7 +278,14 @@ func buildOverlayRAC(root, pkgDir string) (map[string][]byte, error) {
 			var checks strings.Builder
 			for _, r := range c.Ensures {
 				rt, ok := substAll(r.Text, fd, lastErr, res0)
-				if !ok || !racExecutable(rt) {
+				if !ok {
+					continue
+				}
+				if !racExecutable(rt) {
+					// keep the index into the recorded old() types aligned
+					dummy := 0
+					_, skipped := hoistOld(rt, &dummy)
+					ti += len(skipped)
 					continue
 				}
 				txt, hoists := hoistOld(rt, &counter)
